@@ -42,6 +42,9 @@ type Scenario struct {
 	// started gets its reply through however long after the Shutdown call it writes it, whatever the
 	// server's timeouts are. (The pinned library does not use the field at all.)
 	WriteTimeoutMs int `json:",omitempty"`
+	// round 10: a fatal (non-temporary) error of the listener / socket while the server is running
+	// (fatal_test.go); the zero value = none
+	Fatal Fatal `json:",omitzero"`
 }
 
 // Restart describes the second run of the same Server value. Its clients are numbered 9, 10, ...
@@ -152,6 +155,13 @@ const knownStaleSocket = "shutdown-closes-socket-of-draining-run"
 // and serveUDP's "Reader has no ReadPacketConn" return waits for ever. While it is live the
 // generator makes that Shutdown wait for the start to return (Sd = "").
 const knownSdInsideFailingStart = "shutdown-inside-failing-start"
+
+// knownLateHandover (round 10): after a ShutdownContext that gave up on its context has returned, a
+// request that the server's Reader was still busy with is handed to the serve loop and gets a
+// handler. While it is live the generator does not draw the schedule that places the return of a
+// Reader behind the return of such a Shutdown, and a case that gets there by chance (a race between
+// the read and a Shutdown whose context has already expired) is not judged on that point.
+const knownLateHandover = "handler-started-after-shutdown-gave-up"
 
 type Client struct {
 	Reqs     []Req
@@ -312,6 +322,7 @@ func genScenario(t *rapid.T, transports []string) Scenario {
 		drawRestart(t, &s)
 	}
 	drawExtras(t, &s)
+	drawFatal(t, &s, false)
 	return s
 }
 
@@ -351,6 +362,7 @@ func genRestartOn(t *rapid.T, transports []string) Scenario {
 	}
 	drawRestart(t, &s)
 	drawExtras(t, &s)
+	drawFatal(t, &s, false)
 	return s
 }
 
